@@ -10,6 +10,7 @@ package main
 // facts (a weak but sound fragment of Fourier–Motzkin elimination); no solver is involved.
 
 import (
+	"golang.org/x/tools/go/ssa"
 	"fmt"
 	"go/types"
 	"sort"
@@ -305,6 +306,13 @@ type AVal struct {
 	Inner  *AVal        // avIface: boxed value when a single one is known
 	Type   types.Type
 	NonNil bool // pointer-like value known non-nil without a symbol
+	Clo    *aClosure // avFunc: the closure (function and captured values) when it is known
+}
+
+// aClosure: a function value built by MakeClosure (a closure or a bound method value).
+type aClosure struct {
+	fn   *ssa.Function
+	bind []AVal
 }
 
 // Guard: refinements that become valid when an error symbol is learnt to be nil / non-nil.
@@ -882,6 +890,39 @@ func sameVal(x, y AVal) bool {
 }
 
 // widen: intervals that grew since `old` jump to the atom's declared range.
+// widenStateOnly widens the atoms in `own` (the header variables of the loop being widened) as
+// widenState does and leaves the others as they are: an atom that belongs to an enclosing loop grows
+// at an inner loop head only because the enclosing loop iterates, and is widened at its own head —
+// jumping it to its declared range here would throw away the bound its own exit test gives it
+// (`for i := range b[:2] { for bit := 0; bit < 8; bit++ { a[8*i+bit] ...`).
+func widenStateOnly(old, cur *State, own map[atomID]bool) *State {
+	if old == nil {
+		return cur
+	}
+	n := cur.clone()
+	for k := range n.facts {
+		if _, ok := old.facts[k]; !ok {
+			delete(n.facts, k)
+		}
+	}
+	for k := range n.itv {
+		if !own[k] {
+			continue
+		}
+		o, c := old.atomItv(k), n.atomItv(k)
+		r := c
+		full := n.u.atoms[k].Range
+		if c.Lo < o.Lo {
+			r.Lo = full.Lo
+		}
+		if c.Hi > o.Hi {
+			r.Hi = full.Hi
+		}
+		n.itv[k] = r
+	}
+	return n
+}
+
 func widenState(old, cur *State) *State {
 	if old == nil {
 		return cur
